@@ -7,6 +7,7 @@ pub const SINGLE: u8 = 1;
 pub const B2B: u8 = 2;
 pub const ONESHOT: u8 = 3; // AsyncStreamCipher::{encrypt,decrypt} (whole blocks + partial tail)
 pub const ONESHOT_B2B: u8 = 4;
+pub const CLOSURE: u8 = 5; // custom closure calling the mode backend's *_inplace entry points
 
 /// Full-block CFB through the block API or the one-shot API; L bytes (tail allowed for one-shot).
 macro_rules! cfb_case {
@@ -37,6 +38,8 @@ macro_rules! cfb_case {
                 buf = out;
             } else if $how == ONESHOT {
                 do_oneshot!($dir, m, &mut buf[..]);
+            } else if $how == CLOSURE {
+                do_closure!($dir, m, blocks_mut::<$bs>(&mut buf));
             } else {
                 let r = do_oneshot_b2b!($dir, m, &input[..], &mut out[..]);
                 assert!(r.is_ok());
@@ -249,14 +252,21 @@ cfb_case!(cfb_dec_b2_w3_l9_oneshot, 40, Decryptor, dec, false, U2, 2, U3, 9, ONE
 cfb_case!(cfb_dec_b4_w2_l11_oneshot_b2b, 40, Decryptor, dec, false, U4, 4, U2, 11, ONESHOT_B2B);
 cfb_case!(cfb_dec_b2_w2_l6_oneshot_b2b, 40, Decryptor, dec, false, U2, 2, U2, 6, ONESHOT_B2B);
 cfb_case!(cfb_enc_b2_w1_l4_oneshot_b2b, 40, Encryptor, enc, true, U2, 2, U1, 4, ONESHOT_B2B);
+cfb_case!(cfb_enc_b2_w2_n4_closure, 40, Encryptor, enc, true, U2, 2, U2, 8, CLOSURE);
+cfb_case!(cfb_dec_b2_w2_n4_closure, 40, Decryptor, dec, false, U2, 2, U2, 8, CLOSURE);
 cfb_symlen_case!(cfb_enc_b2_w1_symlen7, 40, Encryptor, enc, true, U2, 2, U1, 7);
 cfb_symlen_case!(cfb_dec_b2_w2_symlen7, 40, Decryptor, dec, false, U2, 2, U2, 7);
 cfb8_case!(cfb8_enc_b3_l5_oneshot, 40, Encryptor, enc, true, U3, 3, U2, 5, ONESHOT);
 cfb8_case!(cfb8_enc_b2_l4_multi, 40, Encryptor, enc, true, U2, 2, U1, 4, MULTI);
 cfb8_case!(cfb8_dec_b3_l5_oneshot, 40, Decryptor, dec, false, U3, 3, U2, 5, ONESHOT);
 cfb8_case!(cfb8_dec_b2_l4_b2b, 40, Decryptor, dec, false, U2, 2, U1, 4, B2B);
+cfb8_case!(cfb8_dec_b2_w4_l9_multi, 40, Decryptor, dec, false, U2, 2, U4, 9, MULTI); // cipher width > block size
+cfb8_case!(cfb8_enc_b2_w4_l9_multi, 40, Encryptor, enc, true, U2, 2, U4, 9, MULTI);
 cfb8_symlen_case!(cfb8_enc_b2_symlen5, 40, Encryptor, enc, true, U2, 2, 5);
 cfb8_symlen_case!(cfb8_dec_b2_symlen5, 40, Decryptor, dec, false, U2, 2, 5);
+cfb_case!(cfb_dec_b12_w2_l29_oneshot, 48, Decryptor, dec, false, U12, 12, U2, 29, ONESHOT);
+cfb8_case!(cfb8_enc_b12_l14_oneshot, 40, Encryptor, enc, true, U12, 12, U1, 14, ONESHOT);
+ofb_case!(ofb_bytes_b12_w1_l29, 48, U12, 12, U1, 29, F_BYTES);
 ofb_case!(ofb_enc_b2_w2_n3, 40, U2, 2, U2, 6, F_ENC);
 ofb_case!(ofb_dec_b2_w2_n3, 40, U2, 2, U2, 6, F_DEC);
 ofb_case!(ofb_core_b4_w1_n3, 40, U4, 4, U1, 12, F_CORE);
@@ -269,6 +279,10 @@ cfb_case!(t_cfb_enc_b3_w2_n4_single, 40, Encryptor, enc, true, U3, 3, U2, 12, SI
 cfb_case!(t_cfb_enc_b8_w3_l25_oneshot_b2b, 60, Encryptor, enc, true, U8, 8, U3, 25, ONESHOT_B2B);
 cfb_case!(t_cfb_enc_b16_w1_l35_oneshot, 80, Encryptor, enc, true, U16, 16, U1, 35, ONESHOT);
 cfb_case!(t_cfb_dec_b1_w8_n9_multi, 40, Decryptor, dec, false, U1, 1, U8, 9, MULTI);
+cfb_case!(t_cfb_dec_b1_w8_n33_multi, 80, Decryptor, dec, false, U1, 1, U8, 33, MULTI);
+cfb_case!(t_cfb_enc_b1_w1_l33_oneshot, 80, Encryptor, enc, true, U1, 1, U1, 33, ONESHOT);
+cfb8_case!(t_cfb8_enc_b1_l34_oneshot, 80, Encryptor, enc, true, U1, 1, U1, 34, ONESHOT);
+cfb8_case!(t_cfb8_dec_b2_w4_l33_multi, 80, Decryptor, dec, false, U2, 2, U4, 33, MULTI);
 cfb_case!(t_cfb_dec_b2_w2_n5_multi, 40, Decryptor, dec, false, U2, 2, U2, 10, MULTI);
 cfb_case!(t_cfb_dec_b3_w4_l16_oneshot, 40, Decryptor, dec, false, U3, 3, U4, 16, ONESHOT);
 cfb_case!(t_cfb_dec_b8_w2_l25_oneshot_b2b, 60, Decryptor, dec, false, U8, 8, U2, 25, ONESHOT_B2B);
